@@ -447,7 +447,7 @@ func TestVerifC07(t *testing.T) {
 		}
 	}
 	peers := env.NewCases(res, "scripted-non-sdk-servers")
-	for _, d := range []string{"mnf", `["2026-07-28"]`, `["2026-07-28","2025-06-18"]`, `["2025-06-18"]`, `["2027-01-01"]`, `[]`, `unsupported:["2026-07-28"]`, `unsupported:["2025-03-26"]`, `unsupported:["2031-01-01"]`} {
+	for _, d := range []string{"mnf", `["2026-07-28"]`, `["2026-07-28","2025-06-18"]`, `["2025-06-18"]`, `["2027-01-01"]`, `["2099-01-01"]`, `["2099-01-01","2026-07-28"]`, `[]`, `unsupported:["2026-07-28"]`, `unsupported:["2025-03-26"]`, `unsupported:["2031-01-01"]`} {
 		for _, i := range []string{"echo", "2025-03-26", "1990-01-01", "2025-01-01", "2030-01-01", "2026-07-28", ""} {
 			for _, r := range []string{"", "2025-06-18", "2099-01-01"} {
 				idx, mine := peers.Next()
@@ -459,5 +459,139 @@ func TestVerifC07(t *testing.T) {
 			}
 		}
 	}
+	// ---- scripted legacy servers behind HTTP: discovery is refused at the HTTP level in the ways
+	// servers that predate server/discover do it; the client must fall back to initialize
+	httpPeers := env.NewCases(res, "scripted-legacy-http-servers")
+	for _, kind := range []string{"streamable", "sse"} {
+		for _, d := range []string{"404-bare", "404-jsonrpc-mnf", "400-plain", "400-jsonrpc-mnf", "405-bare", "200-jsonrpc-mnf"} {
+			for _, r := range []string{"", "2026-07-28", "2099-01-01"} {
+				idx, mine := httpPeers.Next()
+				if !mine {
+					continue
+				}
+				desc := fmt.Sprintf("legacy %s server answering server/discover with %s, requested=%q", kind, d, r)
+				run(func() (string, string, string) { return c07RunHTTPPeer(kind, d, r) }, desc, idx, httpPeers)
+			}
+		}
+	}
 	env.Finish(res)
+}
+
+// c07RunHTTPPeer: a scripted server that implements the legacy handshake only and refuses
+// server/discover at the HTTP level (or with a JSON-RPC method-not-found).
+func c07RunHTTPPeer(kind, discover, requested string) (obs, sig, msg string) {
+	fail := func(s, format string, a ...any) (string, string, string) {
+		return "", "c07 http-peer " + kind + " " + s, fmt.Sprintf(format, a...) + fmt.Sprintf(" [legacy %s server, discover answered %s, requested=%q]", kind, discover, requested)
+	}
+	ctx, cancel := context.WithTimeout(context.Background(), time.Minute)
+	defer cancel()
+	mk := func(status int, ctype, body string) *http.Response {
+		h := http.Header{}
+		if ctype != "" {
+			h.Set("Content-Type", ctype)
+		}
+		return &http.Response{StatusCode: status, Status: fmt.Sprint(status), Header: h, Body: io.NopCloser(strings.NewReader(body)), Proto: "HTTP/1.1", ProtoMajor: 1, ProtoMinor: 1}
+	}
+	var seen []string
+	// the SSE server's event stream
+	pr, pw := io.Pipe()
+	defer pw.Close()
+	event := func(name, data string) { go fmt.Fprintf(pw, "event: %s\ndata: %s\n\n", name, data) }
+	answer := func(id, method, version string) (jsonBody string, handled bool) {
+		switch method {
+		case "initialize":
+			v := version
+			if !slices.Contains(c07Legacy, v) {
+				v = "2025-06-18"
+			}
+			return `{"jsonrpc":"2.0","id":` + id + `,"result":{"protocolVersion":"` + v + `","capabilities":{"tools":{}},"serverInfo":{"name":"legacy","version":"1"}}}`, true
+		case "tools/list":
+			return `{"jsonrpc":"2.0","id":` + id + `,"result":{"tools":[]}}`, true
+		}
+		return "", false
+	}
+	hx := &hxTransport{Intercept: func(req *http.Request, n int) (*http.Response, error) {
+		body, _ := io.ReadAll(req.Body)
+		var m struct {
+			ID     json.RawMessage `json:"id"`
+			Method string          `json:"method"`
+			Params struct {
+				ProtocolVersion string `json:"protocolVersion"`
+			} `json:"params"`
+		}
+		json.Unmarshal(body, &m)
+		if m.Method != "" {
+			seen = append(seen, m.Method)
+		}
+		mnf := `{"jsonrpc":"2.0","id":` + string(m.ID) + `,"error":{"code":-32601,"message":"method not found"}}`
+		switch {
+		case req.Method == "GET" && kind == "sse" && strings.HasSuffix(req.URL.Path, "/sse"):
+			r := mk(200, "text/event-stream", "")
+			r.Body = pr
+			event("endpoint", "/messages?sessionid=1")
+			return r, nil
+		case req.Method == "GET":
+			return mk(405, "", ""), nil
+		case req.Method == "DELETE":
+			return mk(204, "", ""), nil
+		case m.Method == "server/discover":
+			switch discover {
+			case "404-bare":
+				return mk(404, "", ""), nil
+			case "404-jsonrpc-mnf":
+				return mk(404, "application/json", mnf), nil
+			case "400-plain":
+				return mk(400, "text/plain", "unknown method\n"), nil
+			case "400-jsonrpc-mnf":
+				return mk(400, "application/json", mnf), nil
+			case "405-bare":
+				return mk(405, "", ""), nil
+			default:
+				if kind == "sse" {
+					event("message", mnf)
+					return mk(202, "", ""), nil
+				}
+				return mk(200, "application/json", mnf), nil
+			}
+		case len(m.ID) == 0:
+			return mk(202, "", ""), nil
+		}
+		if b, ok := answer(string(m.ID), m.Method, m.Params.ProtocolVersion); ok {
+			if kind == "sse" {
+				event("message", b)
+				return mk(202, "", ""), nil
+			}
+			r := mk(200, "application/json", b)
+			r.Header.Set("Mcp-Session-Id", "legacy-1")
+			return r, nil
+		}
+		if kind == "sse" {
+			event("message", `{"jsonrpc":"2.0","id":`+string(m.ID)+`,"result":{}}`)
+			return mk(202, "", ""), nil
+		}
+		return mk(200, "application/json", `{"jsonrpc":"2.0","id":`+string(m.ID)+`,"result":{}}`), nil
+	}}
+	var tr Transport
+	if kind == "sse" {
+		tr = &SSEClientTransport{Endpoint: "http://example.test/sse", HTTPClient: hx.client()}
+	} else {
+		tr = &StreamableClientTransport{Endpoint: "http://example.test/mcp", HTTPClient: hx.client(), MaxRetries: -1}
+	}
+	client := NewClient(&Implementation{Name: "cli", Version: "1"}, &ClientOptions{Logger: quietLogger})
+	cs, err := client.Connect(ctx, tr, &ClientSessionOptions{ProtocolVersion: requested})
+	if err != nil {
+		if ctx.Err() != nil {
+			return fail("connect-hangs", "Connect did not return: %v", err)
+		}
+		return fail("no-fallback-after-http-refusal "+discover, "discovery is unavailable on this server but Connect did not fall back to the initialize handshake (methods sent: %v): %v", seen, err)
+	}
+	defer cs.Close()
+	got := cs.InitializeResult().ProtocolVersion
+	if !slices.Contains(c07Legacy, got) {
+		return fail("negotiated-not-offered-by-server", "negotiated %q with a server that only implements the legacy handshake", got)
+	}
+	if _, err := cs.ListTools(ctx, nil); err != nil {
+		return fail("list-fails-after-connect", "ListTools: %v", err)
+	}
+	return fmt.Sprintf("%s fallback negotiated=%s", kind, got), "", ""
 }
